@@ -293,9 +293,9 @@ fn shape_name(t: &J) -> String {
 pub fn replay_conv(rep: &mut Report, rec: &J) {
 	rep.count("conv_vectors");
 	let src = cps_to_string(&rec["w"]).unwrap();
-	let (v, cm) = match Value::parse_str(&src) {
-		Ok(x) => x,
-		Err(_) => {
+	let (v, cm) = match guarded(|| Value::parse_str(&src)) {
+		Ok(Ok(x)) => x,
+		_ => {
 			rep.mismatch("C11.conv", json!({"what": "document of a conversion vector does not parse", "vector": rec}));
 			return;
 		}
